@@ -140,4 +140,19 @@ def readLockCallouts : List (String × String × String) :=
 def condOps : List SyncOp := syncOps.filter (·.kind == "sync.Cond")
 def waitGroupOps : List SyncOp := syncOps.filter (·.kind == "sync.WaitGroup")
 
+/-- Condition variables that can have several goroutines parked at once: a `Wait` site in an
+exported method (any number of callers). -/
+def multiWaiterCondsOf (ops : List SyncOp) : List (String × String) :=
+  ((ops.filter fun o => o.kind == "sync.Cond" && o.op == "Wait" &&
+      methodTable.any (fun m => m.1 == o.typ && m.2.1 == o.meth && m.2.2.1)).map fun o => (o.typ, o.field)).eraseDups
+
+/-- Wake-ups of such a condition variable made with `Signal` (wakes ONE waiter): the waiter that
+is woken returns, the others stay parked although the condition they wait for holds. -/
+def condSignalsOf (ops : List SyncOp) : List (String × String × String) :=
+  ((ops.filter fun o => o.kind == "sync.Cond" && o.op == "Signal" &&
+      (multiWaiterCondsOf ops).contains (o.typ, o.field)).map fun o => (o.typ, o.meth, o.field)).eraseDups
+
+def multiWaiterConds : List (String × String) := multiWaiterCondsOf syncOps
+def condSignals : List (String × String × String) := condSignalsOf syncOps
+
 end Uniflow.Lockset
